@@ -292,7 +292,7 @@ func run(c *lib.Ctx) {
 
 // serialisation enumerates day ranges in JSON and YAML form.
 func serialisation(c *lib.Ctx) {
-	vals := []time.Duration{-time.Minute, 0, 30 * time.Second, time.Minute, 12 * time.Hour, 24 * time.Hour, 24*time.Hour + time.Minute, 25 * time.Hour, 90 * time.Second, time.Millisecond}
+	vals := []time.Duration{-time.Minute, 0, 30 * time.Second, time.Minute, 12 * time.Hour, 24 * time.Hour, 24*time.Hour + time.Minute, 25 * time.Hour, 90 * time.Second, time.Millisecond, 500 * time.Microsecond, 12*time.Hour + 500*time.Microsecond}
 	zonesS := []string{"UTC", "America/New_York", "Asia/Kathmandu"}
 	probe := time.Date(2024, 6, 5, 12, 0, 30, 0, time.UTC)
 	for _, zn := range zonesS {
@@ -483,7 +483,7 @@ func main() {
 			return map[string]any{
 				"evaluations":         m.Counters["evals"],
 				"distinct_nontrivial": m.Distinct["nontrivial"],
-				"rule": "every zone with a distinct transition table in the window x every local day before/of/after each transition at every whole minute and +-1ns x 9 day ranges x 15 weekday masks, plus 28 ordinary days; serialised ranges over 10x10 start/end values in JSON and YAML. distinct_nontrivial = distinct zone tables exercised + distinct serialised documents; transition days counted separately",
+				"rule": "every zone with a distinct transition table in the window x every local day before/of/after each transition at every whole minute and +-1ns x 9 day ranges x 15 weekday masks, plus 28 ordinary days; serialised ranges over 12x12 start/end values (incl. fractions of a millisecond) in JSON and YAML. distinct_nontrivial = distinct zone tables exercised + distinct serialised documents; transition days counted separately",
 				"zones":               m.Counters["zones"],
 				"transition_days":     m.Distinct["transition_days"],
 				"evals_on_transition_days": m.Counters["evals_on_transition_days"],
